@@ -77,18 +77,10 @@ def module_jobs(ctx, n_gen, n_rej):
     # modules with anonymous bits (the counter), in several sizes
     for i in range(max(3, n_gen // 3)):
         jobs.append({"id": "anon:%d" % i, "files": {"m.emb": anon_module(r, "A%d" % i)}, "main": "m.emb"})
-    fixed = [
-        ("two-cycles", "struct Foo:\n  a [+1]  UInt  b\n  b [+1]  UInt  a\n  c [+1]  UInt  d\n  d [+1]  UInt  c\n  e [+1]  UInt  f\n  f [+1]  UInt  e\n"),
-        ("ambiguous", "enum Flag:\n  AA = 1\nstruct Foo:\n  0 [+1]  Flag  x\n"),
-        ("syntax-many-expected", "struct Foo:\n  0 [+1]  UInt  x\n  let y = 3 3\n"),
-        ("syntax-eof", "struct Foo:\n"),
-        ("duplicate", "struct Foo:\n  0 [+1]  UInt  x\n  1 [+1]  UInt  x\nstruct Foo:\n  0 [+1]  UInt  y\n"),
-        ("type-errors", "struct Foo:\n  0 [+1]  UInt  x\n  let a = x + true\n  let b = true + x\n  let c = x && 1\n  1 [+x == 1]  UInt  y\n"),
-        ("attr-errors", "[$default byte_order: \"x\"]\n[(cpp) bogus: 1]\n[bogus: 2]\nstruct Foo:\n  [bogus2: 3]\n  0 [+1]  UInt  x\n    [bogus3: 4]\n"),
-        ("import-cycle", "import \"m.emb\" as m\nstruct Foo:\n  0 [+1]  UInt  x\n"),
-    ]
-    for name, text in fixed:
-        jobs.append({"id": "rej:" + name, "files": {"m.emb": text}, "main": "m.emb"})
+    # minimised modules of past findings and other fixed rejected modules: corpus/C17/*.json
+    for p in sorted(glob.glob(os.path.join(fw.VERIF, "corpus", "C17", "*.json"))):
+        j = json.load(open(p, encoding="utf-8"))
+        jobs.append({"id": "rej:" + j["id"], "files": {"m.emb": j["text"]}, "shared": True, "main": "m.emb"})
     seen = set()
     tries = 0
     while len([j for j in jobs if j["id"].startswith("fuzz:")]) < n_rej and tries < 50 * n_rej:
@@ -278,6 +270,22 @@ def run(ctx):
                        "numbers; the interleaving runs check it on the generated modules"]
     ctx.audit()
     ctx.check_theorems("EmbossV.Pipeline.Properties_C17", "Pipeline/Properties_C17.v", expect_min=20)
+
+    # ---- replay of one recorded violation ---------------------------------------------
+    if getattr(ctx, "replay_path", None):
+        rp = json.load(open(ctx.replay_path, encoding="utf-8"))
+        r = rp.get("replay", {})
+        if r.get("kind") == "emb" and r.get("seeds"):
+            job = [{"id": "replay", "files": {r["main"]: r["text"]} if r["main"] == "m.emb" else {}, "shared": True, "main": r["main"]}]
+            outs = [worker_run(ctx, "replay%d" % s, job, s, ["ir"], 1)["runs"][0][0] for s in r["seeds"]]
+            d = first_diff(outs[0], outs[1])
+            ctx.case(("replay", r["text"]), nontrivial=True, sample={"replay": ctx.replay_path, "differs": d})
+            ctx.obligation("replay: %s no longer fails" % rp.get("key"), not d)
+            if d:
+                ctx.violation(rp.get("key"), "%s differs between PYTHONHASHSEED=%s and %s" % (d, r["seeds"][0], r["seeds"][1]),
+                              dict(r), found_input=True)
+            return
+        ctx.note("replay file of kind %r: running the whole check" % r.get("kind"))
 
     # ---- (0) the scan must equal the reviewed list --------------------------------
     scan = c17_scan.scan(fw.REPO)
